@@ -927,6 +927,9 @@ func (fc *FnCtx) verify() {
 	fc.ep0 = ep0
 	st := newState(ep0)
 	fr := &Frame{fn: fn, vals: map[ssa.Value]Val{}, prefix: shortFnName(fn), names: map[string]ssa.Value{}}
+	if fc.prefixOverride != "" {
+		fr.prefix = fc.prefixOverride
+	}
 	var args []Val
 	for i, p := range fn.Params {
 		v := fc.freshVal(st, p.Type(), "p_"+p.Name())
@@ -943,6 +946,20 @@ func (fc *FnCtx) verify() {
 		fc.assumeStructInv(st, a)
 	}
 	vars := bindParams(con, fn, args)
+	if fc.conformImpl != nil && len(args) > 0 && con.Decl != nil && con.Decl.Recv != nil {
+		// `self` of the interface contract is the receiver seen through the interface
+		self := args[0]
+		if self.K != KIface {
+			if it := fc.eng.ifaceTypeOf(con); it != nil {
+				self = fc.makeIface(st, self, it)
+			}
+		}
+		for _, f := range con.Decl.Recv.List {
+			for _, n := range f.Names {
+				vars[n.Name] = self
+			}
+		}
+	}
 	// closures verified standalone: captured variables are arbitrary and can be named in the contract
 	for i, fv := range fn.FreeVars {
 		v := fc.value(fr, st, fv)
@@ -974,7 +991,14 @@ func (fc *FnCtx) verify() {
 	cov.Cover = true
 	fc.oldSt = st.clone()
 	pre := fc.oldSt
-	res, retReach := fc.execBody(fr, st, "true")
+	var res Val
+	retReach := "true"
+	if fc.conformImpl != nil {
+		// the "body" is one call of the implementation by its own contract
+		res = fc.callByContract(fr, st, "true", fc.conformImpl, fn, args, nil)
+	} else {
+		res, retReach = fc.execBody(fr, st, "true")
+	}
 	fc.checkStructInvEstablished(fr, st, res, retReach)
 	if con == nil {
 		return
